@@ -49,6 +49,9 @@ def gen_case(seed, n):
         c["second_on_conn"] = r.random() < 0.25
         c["unterminated"] = zone in ("over", "far") and r.random() < 0.15   # never sends the end of the head
         c["version"] = "HTTP/1.0" if r.random() < 0.1 else "HTTP/1.1"
+        if zone != "under" and r.random() < 0.07:
+            # HTTP/0.9 simple-request: the whole head is the request line (no header section, no req id)
+            c.update(version="HTTP/0.9", method="GET", body=0, second_on_conn=False, where="startline")
     else:
         c["status"] = r.choice([200, 200, 200, 404, 301, 500])
         c["framing"] = r.choice(["cl", "chunked", "close"])
@@ -86,6 +89,12 @@ def hundred(i, marker):
 def build_request(c, url_base, req_id, marker):
     """returns (bytes, head_len) with head_len == c['size'] exactly (or None if the size cannot be met)"""
     body = (b"B" * c["body"]) if c["method"] in ("POST", "PUT") else None
+    if c["version"] == "HTTP/0.9":
+        size = c["size"] + (2 if c["unterminated"] else 0)
+        stem = f"GET {url_base}/".encode()
+        if size - len(stem) - 2 < 0:
+            return None, None
+        return stem + b"p" * (size - len(stem) - 2) + b"\r\n", size
 
     def make(line, nh, v):
         url = url_base + ("/" + "p" * (line - 1) if line >= 1 else "")
@@ -215,13 +224,20 @@ def run_config(a, res, ci, req_kb, rsp_kb, cases):
                 return
         r = random.Random(c["split_seed"])
         if c["unterminated"]:
-            wire = wire[:hl - 4]
-            hl -= 4
+            cut = 2 if c["version"] == "HTTP/0.9" else 4
+            wire = wire[:hl - cut]
+            hl -= cut
         pts = sorted({r.randrange(1, len(wire)) for _ in range(c["nsplits"])}) if len(wire) > 1 else []
         conn.send(wire, pts, c["delay"])
         m = conn.read_response(c["method"], timeout=20)
         conn.close()
         ups = lab.at_origin(rid)
+        if c["version"] == "HTTP/0.9":
+            with lab.org.lock:
+                ups = [q for q in lab.org.requests if (q.target.split("://", 1)[-1].partition("/")[2] if "://" in q.target else q.target.lstrip("/")).startswith(key.lstrip("/") + "/")]
+        if m.error and c["version"] == "HTTP/0.9" and z != "over":
+            res.grey("http09-response-format")
+            return
         if m.error:
             res.violation("client-bytes-invalid-http", f"{m.error}: {m.raw[:200]!r}", wit(c))
             return
@@ -243,6 +259,8 @@ def run_config(a, res, ci, req_kb, rsp_kb, cases):
             return
         # ---- over the limit: judged
         res.count("req_over_judged")
+        if c["version"] == "HTTP/0.9":
+            res.count("req_over_judged_http09" + ("_single_write" if not c["nsplits"] else ""))
         if ups:
             res.violation("oversized-request-forwarded", f"request head of {hl} bytes (request_header_max_size {req_kb} KB = {req_kb * 1024}; padding in {c['where']}) reached the origin: {ups[0].method} {ups[0].target[:80]}...", wit(c))
             return
